@@ -314,3 +314,13 @@ def run(facts, rep, ctx):
     round4.ts11(facts, rep)
     round4.ri6(facts, rep)
 
+
+
+_run_before_round5 = run
+
+
+def run(facts, rep, ctx):
+    """rules added after the fourth seeding round (rules/round5.py)"""
+    _run_before_round5(facts, rep, ctx)
+    from . import round5
+    round5.ob1(facts, rep)
